@@ -19,7 +19,7 @@ import impl
 from common import driver_batch
 
 ID = 'C19'
-EXTRA_MODULES = ['Mistletoe.Proofs.Outline', 'propsdriver']
+EXTRA_MODULES = ['Mistletoe.Proofs.Outline', 'Mistletoe.Proofs.TocPlain', 'propsdriver']
 RULE = ('generated outline documents (first heading shallowest, never deepening by more than one; plain-word titles; ATX '
         'with/without closing #s and setext; at top level, inside block quotes and list items; paragraphs, code and '
         'lists in between) x depth 1-6 x omit_title x filter predicates (substring filters); plus spec/mutated documents '
@@ -30,8 +30,10 @@ ASSUMPTIONS = ['a document with no qualifying heading has no table of contents t
 PARTIAL = ['nesting of the toc list by level is proved (C19_toc_nested) for heading lists that are outlines with plain titles '
            '(a letter first, no newline); titles with markup or another first character, and qualifying lists that are not '
            'outlines, are explored on the implementation against the outline oracle only',
-           'plain-text clause: the tag-stripping regex is modelled (Toc.stripTags) and tied by the toc unit; the theorem '
-           'that it removes exactly the heading tags for plain-word titles is not proved yet']
+           'plain-text clause: proved for titles made of raw text, emphasis, strong, strikethrough, inline code and escapes whose '
+           'text is free of <, >, & (C19_plain_text_entry, C19_plain_text_formatted); titles with links or raw HTML are tied by the '
+           'toc unit only (a link whose title attribute spans a line break leaves its tag in the entry: the regex "." does not '
+           'match a newline - outside "plain-word titles")']
 
 WORDS = ['Intro', 'Usage', 'API', 'Notes', 'alpha', 'beta', 'Gamma', 'setup', 'Zed', 'foo', 'bar', 'Part', 'One', 'two',
          'x1', 'Überblick', '中文', 'end']
